@@ -80,7 +80,7 @@ func NodeKey(i int) string { return fmt.Sprintf("verif:node:%d", i) }
 
 // ScOp is one action of the script contract.
 type ScOp struct {
-	K    string `json:"k"`             // w(rite) d(elete) t(ransfer) s(igned transfer) e(vent)
+	K    string `json:"k"`             // w(rite) d(elete) r(ead) t(ransfer) s(igned transfer) e(vent)
 	Key  int    `json:"key,omitempty"` // node key (w, d), event tag (e)
 	Val  int64  `json:"val,omitempty"`
 	From int    `json:"from,omitempty"`
@@ -107,6 +107,41 @@ func (n *NodeVal) UnmarshalMsg(b []byte) ([]byte, error) {
 }
 func (n *NodeVal) Msgsize() int { return 24 }
 
+// CacheableFrom: node keys from this index on hold CNode values, which implement
+// statecache.Value: StateContext.GetTrieNode / InsertTrieNode route them through the
+// transaction cache -> block cache -> state cache, like partitions, allocations, global nodes.
+const CacheableFrom = 8
+
+// CNode is a cacheable node value (same encoding as NodeVal).
+type CNode struct{ NodeVal }
+
+func (n *CNode) Clone() statecache.Value { c := *n; return &c }
+func (n *CNode) CopyFrom(v interface{}) bool {
+	o, ok := v.(*CNode)
+	if !ok {
+		return false
+	}
+	n.V = o.V
+	return true
+}
+
+func nodeValue(key int, val int64) util.MPTSerializable {
+	if key >= CacheableFrom {
+		return &CNode{NodeVal{val}}
+	}
+	return &NodeVal{val}
+}
+
+// Read is one GetTrieNode the script contract performed: after Pos of its own writes it asked for
+// Key; Seen is what the context (cache layers) answered, Trie what the transaction's trie holds
+// at that moment (nil = value not present).
+type Read struct {
+	Pos  int
+	Key  int
+	Seen *int64
+	Trie *int64
+}
+
 // Transfer as recorded (account indices).
 type Tr struct {
 	From, To int
@@ -121,6 +156,7 @@ type Recorded struct {
 	Trs      []Tr
 	Signed   []Tr
 	Events   []int
+	Reads    []Read
 	Class    string // ok | chargeable | internal
 	Out      int
 	AddTrErr int // number of AddTransfer calls the context refused
@@ -156,7 +192,7 @@ func (s *scriptSC) Execute(t *transaction.Transaction, fn string, input []byte, 
 	for _, o := range scr.Ops {
 		switch o.K {
 		case "w":
-			if _, err := b.InsertTrieNode(NodeKey(o.Key), &NodeVal{o.Val}); err != nil {
+			if _, err := b.InsertTrieNode(NodeKey(o.Key), nodeValue(o.Key, o.Val)); err != nil {
 				panic(err)
 			}
 			rec.Writes = append(rec.Writes, [2]int64{int64(o.Key), o.Val})
@@ -166,6 +202,33 @@ func (s *scriptSC) Execute(t *transaction.Transaction, fn string, input []byte, 
 				rec.Writes = append(rec.Writes, [2]int64{int64(o.Key), 0})
 				rec.Del = append(rec.Del, true)
 			}
+		case "r":
+			rd := Read{Pos: len(rec.Writes), Key: o.Key}
+			var err error
+			if o.Key >= CacheableFrom {
+				v := &CNode{}
+				if err = b.GetTrieNode(NodeKey(o.Key), v); err == nil {
+					x := v.V
+					rd.Seen = &x
+				}
+			} else {
+				v := &NodeVal{}
+				if err = b.GetTrieNode(NodeKey(o.Key), v); err == nil {
+					x := v.V
+					rd.Seen = &x
+				}
+			}
+			if err != nil && err != util.ErrValueNotPresent {
+				panic(err)
+			}
+			tv := &NodeVal{}
+			if err := b.GetState().GetNodeValue(util.Path(encryption.Hash(NodeKey(o.Key))), tv); err == nil {
+				x := tv.V
+				rd.Trie = &x
+			} else if err != util.ErrValueNotPresent {
+				panic(err)
+			}
+			rec.Reads = append(rec.Reads, rd)
 		case "t":
 			if err := b.AddTransfer(state.NewTransfer(AccountID(o.From), AccountID(o.To), currency.Coin(o.Amt))); err != nil {
 				rec.AddTrErr++
@@ -348,6 +411,29 @@ type State struct {
 	Env *Env
 	MPT util.MerklePatriciaTrieI
 	U   *Universe
+	// as in production (block.ComputeState / miner generateBlock): one StateCache for the chain,
+	// one BlockCache per block shared by the block's transactions and committed when the block is
+	// done; updateState layers a TransactionCache per transaction on top of it
+	sc      *statecache.StateCache
+	bc      *statecache.BlockCache
+	bcRound int64
+	bcHash  string
+}
+
+func (s *State) blockCache(round int64, hash string) *statecache.BlockCache {
+	if s.sc == nil {
+		s.sc = statecache.NewStateCache()
+	}
+	if s.bc == nil || s.bcRound != round {
+		prev := "verif genesis"
+		if s.bc != nil {
+			s.bc.Commit()
+			prev = s.bcHash
+		}
+		s.bc = statecache.NewBlockCache(s.sc, statecache.Block{Round: round, Hash: hash, PrevHash: prev})
+		s.bcRound, s.bcHash = round, hash
+	}
+	return s.bc
 }
 
 func NewState(env *Env, u *Universe, init []Acct, nodes []Node) *State {
@@ -423,7 +509,7 @@ func (s *State) Apply(idx int, t Txn) (res Result) {
 			res.Panic = fmt.Sprint(r)
 		}
 	}()
-	bc := statecache.NewBlockCache(statecache.NewStateCache(), statecache.Block{Round: t.Round, Hash: b.Hash, PrevHash: "prev"})
+	bc := s.blockCache(t.Round, b.Hash)
 	evs, err := s.Env.C.UpdateState(context.Background(), b, s.MPT, txn, bc)
 	res.Rec = *theScript.last
 	if err != nil {
